@@ -85,6 +85,14 @@ def main():
     except tlc.TLCFailure as exc:
         chk.machinery(str(exc))
     core.lap('design replay over duplicate classes')
+    # FILL development + inlining + cell references under EVERY option set: PipelineD2 model-checked and replayed
+    try:
+        st = designcheck.run_fill(chk, thorough, chk.seed)
+        chk.extra['fill_design_replay'] = st
+        chk.cov['traces_validated_against_impl'] += st['replayed']
+    except tlc.TLCFailure as exc:
+        chk.machinery(str(exc))
+    core.lap('fill design replay (PipelineD2)')
     ids = sorted(recs)
     for tid in ids[:1] + ids[len(ids) // 2:len(ids) // 2 + 2]:
         chk.sample({'deck_text': recs[tid]['text'], 'opts': meta[tid]['opts'], 'verdict': verdicts.get(tid)})
